@@ -251,6 +251,42 @@ func suiteAlloc(args []string) {
 			}
 		}
 	}
+	// honest but DEEP: a recursive user-defined type nested thousands of levels (library types nest ~7 levels): memory must
+	// stay linear in the input, not grow with depth x size
+	for _, depth := range []int{400, 1600} {
+		if stopped {
+			break
+		}
+		var node UTreeNode
+		cur := &node
+		for d := 0; d < depth; d++ {
+			cur.Label = "n"
+			cur.Children = []UTreeNode{{}}
+			cur = &cur.Children[0]
+		}
+		cur.Label = "leaf"
+		_, b := implEncode(node)
+		if b == nil {
+			continue
+		}
+		var m0, m1 runtime.MemStats
+		var out UTreeNode
+		runtime.GC()
+		runtime.ReadMemStats(&m0)
+		err := kmip.NewDecoder(bytes.NewReader(b)).Decode(&out)
+		runtime.ReadMemStats(&m1)
+		a := m1.TotalAlloc - m0.TotalAlloc
+		rep.Evaluations++
+		rep.Nontrivial++
+		rep.Distribution["deep-recursive-type"]++
+		bound := uint64(allocPerByte*len(b) + allocConst)
+		if a > bound {
+			rep.Violations = append(rep.Violations, map[string]interface{}{"kind": "alloc", "type": "UTreeNode (recursive user-defined type)", "input_len": len(b), "allocated": a, "bound": bound,
+				"what": fmt.Sprintf("a well-formed message nested %d levels deep", depth), "decode_error": fmt.Sprint(err)})
+			runtime.GC()
+			debug.FreeOSMemory()
+		}
+	}
 	// one legitimately large value, then many small ones - in one message, and in a later message on the same Decoder:
 	// memory must follow the bytes of the item / message being read, not the largest value seen so far
 	for _, big := range []int{64 << 10, 1 << 20} {
